@@ -1,2 +1,3 @@
 import PtaSpec.Hier
 import PtaSpec.RuleSem
+import PtaSpec.BuilderSpec
